@@ -90,3 +90,99 @@ Print Assumptions C02_absent_slot.
 Print Assumptions C02_signature_routed_to_its_epoch.
 Print Assumptions C02_unarchived_signature_not_found.
 Print Assumptions C02_transaction_payloads_byte_identical.
+
+(* ================================================================ the Go functions themselves, TRANSLATED
+   On every check gen/golite.go re-translates slottools/edges.go (CalcEpochForSlot, CalcEpochLimits,
+   Uint64RangesHavePartialOverlapIncludingEdges — the slot -> epoch routing used by getBlock / getTransaction (C02),
+   getSignaturesForAddress (C07) and the gRPC range streams (C19)) from /repo's working tree into the GoLite fragment
+   (Generated/GoLiteC02.v; semantics: GoLite.v — uint64 arithmetic wraps modulo 2^64, division by zero and bad
+   indexes panic).  The theorems below state that the translated functions ARE what the models compute
+   ([epoch_of] of C02_Rpc above; [slot / ConstsC07.epoch_len] of C07_Model, the constant being generated from
+   slottools.EpochLen as well); they are re-proved against what the source says now. *)
+Require YF.GoLite YF.Generated.GoLiteC02 YF.GoLiteC02_Slots YF.Generated.ConstsC07 YF.C01_IndexAll.
+Import ZArith String.
+
+(* the epoch lengths of the models (C02_Rpc, C01_IndexAll) are the constant generated from slottools.EpochLen *)
+Theorem C02_translated_epoch_len_is_the_models : 
+  epoch_len = ConstsC07.epoch_len /\ C01_IndexAll.epoch_len = ConstsC07.epoch_len.
+Proof. exact GoLiteC02_Slots.epoch_len_models_agree. Qed.
+
+(* edges.go:CalcEpochForSlot is the model's [epoch_of] (= slot / epoch_len) on every uint64 slot: no panic, no wrap *)
+Theorem C02_translated_CalcEpochForSlot_is_epoch_of : forall ext fuel (slot : N), (slot < 18446744073709551616)%N ->
+  GoLite.call GoLiteC02.prog ext fuel "CalcEpochForSlot"%string [GoLite.VInt (Z.of_N slot)]
+  = GoLite.RRet (GoLite.VInt (Z.of_N (epoch_of slot))) /\
+  epoch_of slot = (slot / ConstsC07.epoch_len)%N.
+Proof.
+  exact (fun ext fuel slot H =>
+    conj (GoLiteC02_Slots.CalcEpochForSlot_is_epoch_of GoLiteC02.prog GoLiteC02.prog_CalcEpochForSlot ext fuel slot H) eq_refl).
+Qed.
+
+(* edges.go:CalcEpochLimits, for EVERY epoch: first and last slot of the epoch, each reduced modulo 2^64 (Go's uint64
+   arithmetic wraps silently) ... *)
+Theorem C02_translated_CalcEpochLimits_mod_2_64 : forall ext fuel (epoch : N),
+  GoLite.call GoLiteC02.prog ext fuel "CalcEpochLimits"%string [GoLite.VInt (Z.of_N epoch)]
+  = GoLite.RRet (GoLite.VTuple
+      [GoLite.VInt (Z.of_N ((epoch * epoch_len) mod 18446744073709551616));
+       GoLite.VInt (Z.of_N ((epoch * epoch_len + epoch_len - 1) mod 18446744073709551616))]).
+Proof. exact (GoLiteC02_Slots.CalcEpochLimits_mod GoLiteC02.prog GoLiteC02.prog_CalcEpochLimits). Qed.
+
+(* ... hence exactly (epoch*epoch_len, epoch*epoch_len + epoch_len - 1) when nothing wraps, i.e. under the premise of
+   the C01 slot theorems (this pair is the range of the block-time table of C01_IndexAll.index_all); every slot of
+   that range, and no other, is routed back to the epoch by CalcEpochForSlot *)
+Theorem C02_translated_CalcEpochLimits_exact : forall ext fuel (epoch : N),
+  (epoch * epoch_len + epoch_len < 2 ^ 64)%N ->
+  GoLite.call GoLiteC02.prog ext fuel "CalcEpochLimits"%string [GoLite.VInt (Z.of_N epoch)]
+  = GoLite.RRet (GoLite.VTuple
+      [GoLite.VInt (Z.of_N (epoch * epoch_len)); GoLite.VInt (Z.of_N (epoch * epoch_len + epoch_len - 1))]) /\
+  (forall slot, (epoch * epoch_len <= slot <= epoch * epoch_len + epoch_len - 1)%N <-> epoch_of slot = epoch).
+Proof.
+  exact (fun ext fuel epoch H =>
+    conj (GoLiteC02_Slots.CalcEpochLimits_exact GoLiteC02.prog GoLiteC02.prog_CalcEpochLimits ext fuel epoch H)
+         (fun slot => GoLiteC02_Slots.epoch_limits_contain epoch slot)).
+Qed.
+(* the wrap-around is real: the last epoch that starts below 2^64 ends, according to CalcEpochLimits, at slot 320383 *)
+Example C02_translated_CalcEpochLimits_wraps :
+  GoLite.call GoLiteC02.prog GoLite.no_ext 0 "CalcEpochLimits"%string [GoLite.VInt 42700796466920%Z]
+  = GoLite.RRet (GoLite.VTuple [GoLite.VInt 18446744073709440000%Z; GoLite.VInt 320383%Z]).
+Proof. vm_compute. reflexivity. Qed.
+
+(* edges.go:Uint64RangesHavePartialOverlapIncludingEdges on closed intervals [a0,a1], [b0,b1] (a0 <= a1, b0 <= b1):
+   true exactly when the intervals share a point; equivalently max of the starts <= min of the ends *)
+Theorem C02_translated_ranges_overlap_is_intersection : forall ext fuel (a0 a1 b0 b1 : Z), (a0 <= a1)%Z -> (b0 <= b1)%Z ->
+  GoLite.call GoLiteC02.prog ext fuel "Uint64RangesHavePartialOverlapIncludingEdges"%string
+    [GoLite.VInts [a0; a1]; GoLite.VInts [b0; b1]]
+  = GoLite.RRet (GoLite.VBool (Z.max a0 b0 <=? Z.min a1 b1)%Z) /\
+  ((Z.max a0 b0 <=? Z.min a1 b1)%Z = true <-> exists x, (a0 <= x <= a1)%Z /\ (b0 <= x <= b1)%Z).
+Proof.
+  exact (fun ext fuel a0 a1 b0 b1 Ha Hb =>
+    conj (GoLiteC02_Slots.Overlap_is_max_le_min GoLiteC02.prog GoLiteC02.prog_Uint64RangesHavePartialOverlapIncludingEdges ext fuel a0 a1 b0 b1 Ha Hb)
+         (GoLiteC02_Slots.max_le_min_iff_common_point a0 a1 b0 b1)).
+Qed.
+
+(* ... and the exact boolean for arbitrary pairs (no premise): only the starts are compared first *)
+Theorem C02_translated_ranges_overlap_exact : forall ext fuel (a0 a1 b0 b1 : Z),
+  GoLite.call GoLiteC02.prog ext fuel "Uint64RangesHavePartialOverlapIncludingEdges"%string
+    [GoLite.VInts [a0; a1]; GoLite.VInts [b0; b1]]
+  = GoLite.RRet (GoLite.VBool (if (a0 <? b0)%Z then (b0 <=? a1)%Z else (a0 <=? b1)%Z)).
+Proof. exact (GoLiteC02_Slots.Overlap_exact GoLiteC02.prog GoLiteC02.prog_Uint64RangesHavePartialOverlapIncludingEdges). Qed.
+
+(* non-vacuity: the translated functions RUN (vm_compute inside the kernel): slot 206459118 lies in epoch 477, whose
+   limits are 206064000 .. 206495999; touching ranges overlap, disjoint ones do not *)
+Example C02_translated_functions_run :
+  GoLite.call GoLiteC02.prog GoLite.no_ext 0 "CalcEpochForSlot"%string [GoLite.VInt 206459118%Z]
+    = GoLite.RRet (GoLite.VInt 477%Z) /\
+  epoch_of 206459118 = 477%N /\
+  GoLite.call GoLiteC02.prog GoLite.no_ext 0 "CalcEpochLimits"%string [GoLite.VInt 477%Z]
+    = GoLite.RRet (GoLite.VTuple [GoLite.VInt 206064000%Z; GoLite.VInt 206495999%Z]) /\
+  GoLite.call GoLiteC02.prog GoLite.no_ext 0 "Uint64RangesHavePartialOverlapIncludingEdges"%string
+      [GoLite.VInts [10; 20]%Z; GoLite.VInts [20; 30]%Z] = GoLite.RRet (GoLite.VBool true) /\
+  GoLite.call GoLiteC02.prog GoLite.no_ext 0 "Uint64RangesHavePartialOverlapIncludingEdges"%string
+      [GoLite.VInts [21; 30]%Z; GoLite.VInts [10; 20]%Z] = GoLite.RRet (GoLite.VBool false).
+Proof. vm_compute. repeat split; reflexivity. Qed.
+
+Print Assumptions C02_translated_epoch_len_is_the_models.
+Print Assumptions C02_translated_CalcEpochForSlot_is_epoch_of.
+Print Assumptions C02_translated_CalcEpochLimits_mod_2_64.
+Print Assumptions C02_translated_CalcEpochLimits_exact.
+Print Assumptions C02_translated_ranges_overlap_is_intersection.
+Print Assumptions C02_translated_ranges_overlap_exact.
